@@ -30,11 +30,17 @@ VARIANTS = {
     'tsan':         ['-fsanitize=thread', '-DVF_TSAN'],
     'tsan-noexc':   ['-fsanitize=thread', '-DVF_TSAN', '-fno-exceptions', '-DVF_NOEXC'],
     'plain':        [],
+    'memcheck':     ['-DVF_MEMCHECK'],                      # uninstrumented build run under valgrind memcheck (uninitialised-value use,
+                                                            # which the red-zone sanitizers cannot see); sampled by stride, see run_variant
     'cov':          ['-O0', '--coverage', '-DVF_COV'],      # tools/anchor_coverage.py only (never a verdict)
 }
 ASAN_OPTS = 'detect_leaks=0:allocator_may_return_null=1:alloc_dealloc_mismatch=0:exitcode=86:abort_on_error=0:detect_stack_use_after_return=0:max_allocation_size_mb=4096'
 ASAN_NOSIG = ':handle_segv=0:handle_abort=0:handle_sigbus=0:handle_sigill=0:handle_sigfpe=0'
 UBSAN_OPTS = 'print_stacktrace=1:halt_on_error=0'
+MEMCHECK = ['valgrind', '--tool=memcheck', '-q', '--error-exitcode=87', '--exit-on-first-error=yes', '--leak-check=no',
+            '--undef-value-errors=yes', '--show-mismatched-frees=no', '--track-origins=no', '--num-callers=12', '--child-silent-after-fork=no',
+            '--suppressions=' + os.path.join(VERIF, 'cfg', 'memcheck.supp')]
+MEMCHECK_DEFAULT_STRIDE = {'quick': 400, 'thorough': 150}
 
 
 def log(*a):
@@ -210,9 +216,46 @@ def crash_key(stderr_text, rc):
             return 'asan:%s:%s' % (m.group(2), func)
     if ub:
         return ub
+    mk = memcheck_key(stderr_text)
+    if mk:
+        return mk
     if rc < 0:
         return 'signal:%d' % (-rc)
     return 'exit:%d' % rc
+
+
+MEMCHECK_HEAD = re.compile(r'^==\d+== (Conditional jump or move depends on uninitialised value\(s\)|Use of uninitialised value of size \d+|'
+                           r'Syscall param .* (?:points to|contains) uninitialised byte\(s\)|Invalid (?:read|write) of size \d+|Invalid free\(\).*|'
+                           r'Mismatched free\(\).*|Source and destination overlap in \w+.*|Argument \'\w+\' of function \w+ has a fishy.*|'
+                           r'Jump to the invalid address.*|Process terminating with default action of signal \d+.*)')
+MEMCHECK_FRAME = re.compile(r'^==\d+==\s+(?:at|by) 0x[0-9A-F]+: (.+?) \((?:in )?([^)]*)\)')
+
+
+def memcheck_key(text):
+    """first memcheck error of a dead harness process: kind + innermost frame that belongs to cpputest or the harness"""
+    lines = text.splitlines()
+    for i, line in enumerate(lines):
+        m = MEMCHECK_HEAD.match(line)
+        if not m:
+            continue
+        kind = re.sub(r'\d+', 'N', m.group(1).split('(')[0].strip()).replace(' ', '-').lower()[:60]
+        if kind.startswith('process-terminating'):
+            continue
+        func = '?'
+        for fl in lines[i + 1:i + 14]:
+            fm = MEMCHECK_FRAME.match(fl)
+            if not fm:
+                if not fl.strip('=0123456789 '):
+                    break
+                continue
+            name, where = fm.group(1), fm.group(2)
+            if func == '?':
+                func = name
+            if not (where.startswith('/usr/') or 'vgpreload' in where or where.startswith('/lib')):
+                func = name
+                break
+        return 'memcheck:%s:%s' % (kind, func.split('(')[0].strip())
+    return None
 
 
 def count_soverflow(text):
@@ -220,8 +263,9 @@ def count_soverflow(text):
 
 
 class Proc:
-    def __init__(self, exe, args, env, workdir, tag, first, step, end):
+    def __init__(self, exe, args, env, workdir, tag, first, step, end, prefix=()):
         self.exe, self.args, self.env, self.workdir, self.tag = exe, args, env, workdir, tag
+        self.prefix = list(prefix)
         self.first, self.step, self.end = first, step, end
         self.resumes = 0
         self.p = None
@@ -233,7 +277,7 @@ class Proc:
             f.write(struct.pack('<Q', 2**64 - 2))
         self.errpath = os.path.join(self.workdir, 'err-%s-%d' % (self.tag, self.resumes))
         self.err = open(self.errpath, 'wb')
-        cmd = [self.exe] + self.args + ['--first', str(self.first), '--step', str(self.step), '--end', str(self.end),
+        cmd = self.prefix + [self.exe] + self.args + ['--first', str(self.first), '--step', str(self.step), '--end', str(self.end),
                                         '--out', os.path.join(self.workdir, 'out-' + self.tag),
                                         '--sig', os.path.join(self.workdir, 'sig-' + self.tag),
                                         '--progress', self.prog]
@@ -278,7 +322,19 @@ def run_variant(pid, cfg, variant, tier, seed, workdir, scale, jobs, only=None, 
     else:
         ranges = [(p, nproc, total) for p in range(nproc)]
     stall = cfg.get('stall_s', 300)
-    procs = [Proc(exe, args, san_env(variant, cfg, workdir, '%s-%d' % (variant, i)), workdir, '%s-%d' % (variant, i), f, s, e) for i, (f, s, e) in enumerate(ranges)]
+    prefix = []
+    if variant == 'memcheck':
+        # valgrind costs 20-50x: the variant runs every K-th case of the whole index space (exhaustive sections included),
+        # starting at a seed-dependent offset, so different seeds sample different residues
+        prefix = MEMCHECK
+        K = max(1, int(cfg.get('memcheck_stride', MEMCHECK_DEFAULT_STRIDE)[tier]))
+        if only is None:
+            off = (seed * 7919) % K
+            nproc = max(1, min(nproc, (total + K - 1) // K))
+            ranges = [(off + p * K, nproc * K, total) for p in range(nproc)]
+        res['stride'] = K
+        stall = max(stall, 600)
+    procs = [Proc(exe, args, san_env(variant, cfg, workdir, '%s-%d' % (variant, i)), workdir, '%s-%d' % (variant, i), f, s, e, prefix) for i, (f, s, e) in enumerate(ranges)]
     live = list(procs)
     while live:
         time.sleep(0.05)
@@ -311,7 +367,7 @@ def run_variant(pid, cfg, variant, tier, seed, workdir, scale, jobs, only=None, 
                 live.remove(pr)
                 continue
             if rc == 'stall':
-                confirmed = confirm_hang(exe, args, pr.env, workdir, g, cfg.get('confirm_s', 90))
+                confirmed = confirm_hang(prefix + [exe], args, pr.env, workdir, g, cfg.get('confirm_s', 90) * (10 if prefix else 1))
                 res['crashes'].append(dict(case=g, key='hang:' + section_of(info, g), stderr=et[-4000:], variant=variant, stall=True, confirmed=confirmed))
             else:
                 res['crashes'].append(dict(case=g, key='abort:' + crash_key(et, rc), stderr=et[-6000:], variant=variant))
@@ -371,7 +427,7 @@ def section_of(info, g):
 def confirm_hang(exe, args, env, workdir, case, limit):
     """re-run one case alone; True when it again fails to finish within `limit` seconds"""
     try:
-        p = subprocess.Popen([exe] + args + ['--only', str(case), '--out', os.path.join(workdir, 'confirm-out')], stdout=subprocess.DEVNULL, stderr=subprocess.DEVNULL, env=env, cwd=workdir, start_new_session=True)
+        p = subprocess.Popen((exe if isinstance(exe, list) else [exe]) + args + ['--only', str(case), '--out', os.path.join(workdir, 'confirm-out')], stdout=subprocess.DEVNULL, stderr=subprocess.DEVNULL, env=env, cwd=workdir, start_new_session=True)
         try:
             p.wait(timeout=limit)
             return False
@@ -471,7 +527,11 @@ def judge(pid, cfg, tier, seed, scale, results, t0, workdir, is_replay):
     soverflow = 0
     exhaustive_sections = []
     tsan_reports = []
+    per_build = {}
     for v, res in results:
+        per_build[v] = dict(evaluations=sum(r['evaluations'] for r in res['records'] if r.get('t') in ('end', 'part')))
+        if 'stride' in res:
+            per_build[v]['every_nth_case'] = res['stride']
         infra += res['infra']
         soverflow += res['soverflow']
         sigs |= res['sigs']
@@ -561,7 +621,7 @@ def judge(pid, cfg, tier, seed, scale, results, t0, workdir, is_replay):
     floor = cfg.get('floor', {}).get(tier, 2) if scale == 100 else 2
     wall = time.time() - t0
     cov = dict(evaluations=evaluations, distinct_nontrivial=distinct, rule=cfg['rule'], samples=samples,
-               sections=sections, counters=counters, builds=[v for v, _ in results],
+               sections=sections, counters=counters, builds=[v for v, _ in results], per_build=per_build,
                ubsan_signed_overflow_notes=soverflow,
                exhaustive=False, exhaustive_sections=exhaustive_sections,
                violation_keys_new=[k for k, _, _ in new_keys], known_findings_seen=[key for _, key, _ in known_hit])
